@@ -98,6 +98,7 @@ func init() {
 		Level: "exploration",
 		Rule: "round-trip case = one PRNG store content (key family valid-UTF-8 or arbitrary-bytes alternating, 0..5000 entries, nil/empty/varint-boundary-length values, shared key prefixes) written into a real FullKV (ApplyDelta CREATE/UPDATE/DELETE, or SetBytes/DeletePrefix+Flush) and into a real PartialKV (SetBytes/DeletePrefix+Flush over several blocks, duplicate/empty/binary deleted prefixes), " +
 			"Save(end)+Write then Load into a fresh store of the same Config, on a local directory dstore (plain, and zst/zstd like production) or the in-memory dstore, block ranges up to 10 digits; compared: key set, values (by bytes), deleted-prefix list, SizeBytes against sum(len k+len v) and against the saved store, FileInfo range/kind. " +
+			"write-retry family: the snapshot written must be the store as it was at Save time, also when the store is modified and the NEXT boundary's snapshot (sometimes smaller) is saved before the first write happens; both files load back their own content. " +
 			"multi-store listing (plain mode: quick 24, thorough 400): 2..7 store configs with DIFFERENT sets of saved snapshots on one object store, state.FetchState (which lists them concurrently) must file under each store's name exactly what that store's own ListSnapshotFiles returns. " +
 			"listing case = one Config on a local directory dstore (plain / zst, each also behind a Walk that lists lexicographically and honours StopIteration as the object stores do) with 1..12 really saved full and partial snapshots over PRNG block numbers of 1..10 digits, planted writer temp files (dstore '<name>.<8 letters>.tmp'), foreign files, and every interesting 'below' (0, each start/end -1/+0/+1, 10-digit max, 2^64-1): ListSnapshotFiles must contain every saved snapshot ending at or below it with its range and kind, must not list a temp/foreign file, and the listed FileInfo must load the saved content. " +
 			"write/read-retry case = a full and a partial snapshot saved through a store whose FIRST WriteObject of each object fails after consuming the body and whose FIRST download is cut at k/8 of the object (the code retries both); the full store is modified between Save() and the queued Write(): the file must load back complete, with the content at Save time and an exact size. " +
